@@ -192,3 +192,144 @@ Proof.
   - exists a. split; [left; reflexivity|exact H].
   - destruct (IH H) as (x & Hx & Px). exists x. split; [right; exact Hx|exact Px].
 Qed.
+
+Lemma dd_abs_len : forall f i t last next r,
+  (last = length t \/ last <= i)%nat -> (next <= i)%nat ->
+  dd_abs f i t last next = Some r -> (length r <= length t)%nat.
+Proof.
+  induction f as [|f IH]; intros i t last next r Hl Hn H; [discriminate|].
+  cbn [dd_abs] in H. destruct (i <? length t)%nat eqn:Ei; [|inversion H; subst; lia].
+  apply Nat.ltb_lt in Ei. destruct (fire t i last) eqn:Ef.
+  - assert (Hlast : (last <= i)%nat).
+    { unfold fire in Ef. destruct (last <? length t)%nat eqn:E; [|discriminate]. apply Nat.ltb_lt in E. lia. }
+    destruct (cut_length t i last Ei Hlast) as (CL1 & _ & _).
+    apply IH in H; [lia|left; reflexivity|lia].
+  - pose proof (nxt_le t i next Hn) as Hn1.
+    apply IH in H; [exact H| |lia].
+    unfold lst. destruct (nsd (nth i t 0)); [right; lia|]. destruct Hl; [left; assumption|right; lia].
+Qed.
+
+Lemma nonzero_TX : forall k D N tl, (k = 0 \/ k = 1) -> allDD D -> allnm N -> (tl = [] \/ tl = [[]]) ->
+  nonzero (TX k (D ++ N ++ tl)).
+Proof.
+  intros k D N tl Hk HD HN Htl. unfold TX, nonzero. apply Forall_app. split.
+  - destruct Hk as [-> | ->]; repeat constructor. discriminate.
+  - apply join_forall_bytes; [discriminate|]. rewrite !Forall_app. repeat split.
+    + eapply Forall_impl; [|exact HD]. intros a ->. repeat constructor; discriminate.
+    + eapply Forall_impl; [|exact HN]. intros a ((_ & Hz & _) & _). exact Hz.
+    + destruct Htl as [-> | ->]; repeat constructor.
+Qed.
+
+(* the three shapes of what follows the leading ".." fields *)
+Lemma follow_shape : forall k D N tl, (k = 0 \/ k = 1) -> allDD D -> allnm N -> (tl = [] \/ tl = [[]]) ->
+  N ++ tl = [] \/ N ++ tl = [[]] \/
+  exists n X', N ++ tl = n :: X' /\ nm n /\ nonzero (join_elems (N ++ tl)).
+Proof.
+  intros k D N tl Hk HD HN Htl. destruct N as [|n N'].
+  - destruct Htl as [-> | ->]; [left; reflexivity|right; left; reflexivity].
+  - right. right. exists n, (N' ++ tl). split; [reflexivity|]. split; [inversion HN; assumption|].
+    pose proof (nonzero_TX k [] (n :: N') tl Hk (Forall_nil _) HN Htl) as Z0. unfold TX, nonzero in Z0.
+    apply Forall_app in Z0. apply Z0.
+Qed.
+
+(* ---- all four passes, for inputs whose kept fields are names or ".." ---------------------------- *)
+Definition goodf (f : elem) : Prop := fld f /\ (f = DD \/ ends_dotdot f = false).
+
+Lemma zix_normal_k_plain : forall s k rel,
+  (k = 0 \/ k = 1) -> s <> [] -> s = root_acc k ++ rel -> has_root rel = false -> c_string s ->
+  Z.of_nat (length s) + 2 < W64 ->
+  has_root s = (k =? 1) -> elems s = elems_of (fields rel) ->
+  (forall f, In f (fields rel) -> keepf f = true -> goodf f) ->
+  last (fields rel) [] <> [DOT] ->
+  zix_normal_opt s = Some (std_normal s).
+Proof.
+  intros s k rel Hk Hne Hs Hrel Hc HW HR HE Hfld Hlast.
+  pose proof (fields_nonnil rel) as Nfs.
+  destruct (exists_last Nfs) as (X0 & l & Efs).
+  set (K := filter keepf X0).
+  assert (HK : Forall goodf K).
+  { apply Forall_forall. intros f Hf. apply filter_In in Hf as [Hin Hk']. apply Hfld; [|exact Hk'].
+    rewrite Efs. apply in_or_app. left. exact Hin. }
+  assert (Hl : l = [] \/ goodf l).
+  { destruct (keepf l) eqn:El.
+    - right. apply Hfld; [|exact El]. rewrite Efs. apply in_or_app. right. left. reflexivity.
+    - left. unfold keepf in El. apply negb_false_iff in El. apply orb_true_iff in El as [El | El].
+      + apply is_empty_eq. exact El.
+      + exfalso. apply Hlast. rewrite Efs, last_app1. apply is_dot_eq. exact El. }
+  assert (HHt : exists H tl, K ++ [l] = H ++ tl /\ Forall goodf H /\ (tl = [] \/ tl = [[]])).
+  { destruct Hl as [-> | Hl].
+    - exists K, [[]]. repeat split; auto.
+    - exists (K ++ [l]), []. rewrite app_nil_r. repeat split; auto. apply Forall_app. split; [exact HK|constructor; [exact Hl|constructor]]. }
+  destruct HHt as (H & tl & EH & HH & Htl).
+  assert (HF : Forall fld H) by (eapply Forall_impl; [|exact HH]; intros a [A _]; exact A).
+  (* the text after the first pass *)
+  set (T := TX k (K ++ [l])).
+  assert (Eemit : emit (fields rel) = body K ++ l).
+  { rewrite emit_body by exact Nfs. rewrite Efs, removelast_app1, last_app1. reflexivity. }
+  assert (ET : T = root_acc k ++ emit (fields rel)) by (unfold T, TX; rewrite join_snoc, Eemit; reflexivity).
+  destruct (pass1_k s k rel Hk Hne Hs Hrel Hc) as (m' & E1 & C2 & C3 & Nz).
+  set (acc' := rev (emit (fields rel)) ++ root_acc k) in *.
+  assert (Erev : rev acc' = T).
+  { unfold acc'. rewrite rev_app_distr, rev_involutive, rev_root_acc. symmetry. exact ET. }
+  assert (Elen : length acc' = length T) by (rewrite <- Erev; symmetry; apply rev_length).
+  destruct m' as [|m'']; [lia|].
+  assert (EB : B acc' (S m'') = T ++ 0 :: repeat 0 m'') by (unfold B; rewrite Erev; reflexivity).
+  assert (NzT : nonzero T) by (rewrite <- Erev; apply Forall_rev; exact Nz).
+  (* the second pass *)
+  destruct (pass2_plain k Hk (length H) H tl (le_n _) HF Htl)
+    as (D & N & tl' & HD & HN & Htl' & Hres & Hm & HP).
+  rewrite <- EH in Hres, Hm. fold T in Hres.
+  set (T2 := TX k (D ++ N ++ tl')) in *.
+  set (fuel := ((length s + 2) * (length s + 2))%nat).
+  assert (Hmeas : (length T - length (root_acc k) + length T * (length T + 2) < fuel)%nat) by (unfold fuel; nia).
+  destruct (dd_abs_total fuel (length (root_acc k)) T (length T) 0%nat (or_introl eq_refl) (Nat.le_0_l _) Hmeas) as (r & Er).
+  pose proof (dd_res_det _ _ _ _ _ _ _ Hres Er) as <-.
+  pose proof (dd_abs_len _ _ _ _ _ _ (or_introl eq_refl) (Nat.le_0_l _) Er) as Hlen2.
+  destruct (dd_abs_refine fuel (length (root_acc k)) T (length T) 0%nat (repeat 0 m'') T2
+              (or_introl eq_refl) (Nat.le_0_l _) ltac:(rewrite repeat_length; lia) Er) as (junk' & D1 & D2).
+  rewrite repeat_length in D2.
+  assert (Ek : Z.of_nat (length (root_acc k)) = k) by (destruct Hk as [-> | ->]; reflexivity).
+  rewrite Ek in D1. change (Z.of_nat 0) with 0 in D1.
+  destruct junk' as [|j junk'']; [cbn [length] in D2; lia|]. cbn [length] in D2.
+  assert (NzT2 : nonzero T2) by (apply nonzero_TX; assumption).
+  (* names kept by the second pass do not end in ".." *)
+  assert (HEN : Forall (fun n => ends_dotdot n = false) N).
+  { pose proof (HP (fun e => e = DD \/ ends_dotdot e = false)
+                   ltac:(eapply Forall_impl; [|exact HH]; intros a [_ A]; exact A)) as Q.
+    apply Forall_app in Q as [_ Q]. apply Forall_forall. intros n Hn.
+    rewrite Forall_forall in Q. destruct (Q n Hn) as [-> | A]; [|exact A].
+    pose proof HN as HN0. unfold allnm in HN0. rewrite Forall_forall in HN0. exfalso. apply (nm_not_dd DD (HN0 DD Hn)). reflexivity. }
+  (* third pass and tail *)
+  assert (P34 : exists bufF, pass34 k (Z.of_nat (length T2)) (T2 ++ 0 :: j :: junk'') = Some bufF /\
+                cstr bufF = render (k =? 1) (normal_elems (k =? 1) (D ++ N ++ tl'))).
+  { destruct Hk as [-> | ->].
+    - exists (tail_rules (Z.of_nat (length T2)) (T2 ++ 0 :: j :: junk'')). split; [reflexivity|].
+      rewrite tail_txt by exact NzT2. apply final_text; auto.
+    - destruct D as [|d D'].
+      + exists (tail_rules (Z.of_nat (length T2)) (T2 ++ 0 :: j :: junk'')). split.
+        * unfold pass34. change (negb (1 =? 0)) with true. cbn [andb].
+          destruct (is_sep (get (T2 ++ 0 :: j :: junk'') (1 - 1))); [|reflexivity].
+          assert (Q : root_dotdot_scan (S (length (T2 ++ 0 :: j :: junk''))) (T2 ++ 0 :: j :: junk'') (Z.of_nat (length T2)) 1
+                      = Some (Z.of_nat (length T2 - length (join_elems (N ++ tl'))))).
+          { exact (root_scan_D [] [SEP] (N ++ tl') (j :: junk'') _ (Forall_nil _)
+                     (follow_shape 1 [] N tl' (or_intror eq_refl) (Forall_nil _) HN Htl') (Nat.lt_0_succ _)). }
+          rewrite Q.
+          replace (Z.of_nat (length T2 - length (join_elems (N ++ tl'))) >? 1) with false; [reflexivity|].
+          assert (length T2 = S (length (join_elems (N ++ tl')))) by reflexivity. lia.
+        * rewrite tail_txt by exact NzT2. apply final_text; auto.
+      + destruct (pass34_root_dd d D' (N ++ tl') j junk'' HD
+                    (follow_shape 1 (d :: D') N tl' (or_intror eq_refl) HD HN Htl')) as (bufF & B1 & B2).
+        * change (SEP :: join_elems ((d :: D') ++ N ++ tl')) with T2. lia.
+        * exists bufF. split; [exact B1|]. rewrite B2. apply final_text_root_dd; assumption. }
+  destruct P34 as (bufF & B1 & B2).
+  (* put the passes together *)
+  unfold zix_normal_opt, zix_normal_full. destruct s as [|c0 s0]; [congruence|].
+  set (s := c0 :: s0) in *.
+  rewrite E1. unfold pass2. fold fuel. rewrite Elen, EB, D1, B1. rewrite B2.
+  f_equal.
+  (* the spec side *)
+  unfold std_normal. fold s. change (match s with [] => [] | _ :: _ => render (has_root s) (normal_elems (has_root s) (elems s)) end)
+    with (render (has_root s) (normal_elems (has_root s) (elems s))).
+  rewrite HR, HE. rewrite normal_elems_of_fields by exact Nfs. rewrite Efs.
+  rewrite <- normal_elems_kept. fold K. rewrite Hm. reflexivity.
+Qed.
